@@ -251,3 +251,138 @@ Proof.
   - intros Ht0. apply all_nth_zero_repeat; [exact Hlen|].
     intros i Hi. rewrite <- Hlen in Hi. specialize (Hcell i Hi). lia.
 Qed.
+
+(* ---------- C13: every image a foreign writer can emit is read back to the state it encodes ---------- *)
+Definition state_of (mx : N) (a : cm_abs) : cm :=
+  mkCm (a_nh a) (a_nb a) mx (a_sh a) (a_total a) (a_cells a).
+
+Lemma abs_ok_wfc mx sh a : abs_ok mx sh a -> wfc mx sh (state_of mx a).
+Proof.
+  intros (Hnh & Hnb & Hent & Hsh & Hshr & Hmx & Htot & Hcells & Hlen & Hempty).
+  constructor; cbn [state_of cm_nh cm_nb cm_max cm_seed_hash cm_total cm_counts]; auto; unfold M64; try lia.
+Qed.
+
+Lemma land1_flag f hi : hi mod 2 = 0 -> f < 2 -> N.land (f + hi) 1 = f.
+Proof.
+  intros Hhi Hf. change 1 with (N.ones 1). rewrite N.land_ones. change (2 ^ 1) with 2.
+  rewrite N.add_mod, Hhi, N.add_0_r, N.mod_mod, N.mod_small by lia. reflexivity.
+Qed.
+
+Lemma testbit0_flag f hi : hi mod 2 = 0 -> f < 2 -> N.testbit (f + hi) 0 = (f =? 1).
+Proof.
+  intros Hhi Hf. rewrite N.bit0_odd. rewrite <- N.negb_even.
+  rewrite N.even_add. replace (N.even hi) with true.
+  2:{ symmetry. apply N.even_spec. exists (hi / 2). pose proof (N.div_mod hi 2 ltac:(lia)). lia. }
+  assert (f = 0 \/ f = 1) as [->| ->] by lia; reflexivity.
+Qed.
+
+(* the sixteen header bytes of a foreign image, written out *)
+Lemma spec_header_explicit v a payload :
+  [2; 1; 18; (if a_total a =? 0 then 1 else 0) + v_flag_hi v]
+  ++ le_bytes 4 (v_unused32 v) ++ le_bytes 4 (a_nb a) ++ [a_nh a] ++ le_bytes 2 (a_sh a) ++ [v_unused8 v] ++ payload =
+  [2; 1; 18; (if a_total a =? 0 then 1 else 0) + v_flag_hi v;
+   v_unused32 v mod 256; v_unused32 v / 256 mod 256; v_unused32 v / 256 / 256 mod 256; v_unused32 v / 256 / 256 / 256 mod 256;
+   a_nb a mod 256; a_nb a / 256 mod 256; a_nb a / 256 / 256 mod 256; a_nb a / 256 / 256 / 256 mod 256;
+   a_nh a; a_sh a mod 256; a_sh a / 256 mod 256; v_unused8 v] ++ payload.
+Proof. reflexivity. Qed.
+
+Theorem foreign_read mx sh v a :
+  variant_ok v -> abs_ok mx sh a ->
+  cm_deserialize mx sh (spec_encode v a) = Ok (state_of mx a).
+Proof.
+  intros (_ & _ & Hhi & Hev) (Hnh & Hnb & Hent & Hsh & Hshr & Hmx & Htot & Hcells & Hlen & Hempty).
+  unfold spec_encode.
+  set (payload := if a_total a =? 0 then [] else le_bytes 8 (a_total a) ++ flat_map (le_bytes 8) (a_cells a)).
+  repeat rewrite <- app_assoc. rewrite spec_header_explicit.
+  unfold cm_deserialize, cm_parse_header.
+  destruct layout_constants as (Hp & Hv & Hf & Hfl & Hl8). rewrite Hp, Hv, Hf, Hfl, Hl8.
+  cbn [app length nth firstn skipn Nat.ltb Nat.leb]. rewrite !N.eqb_refl. cbn [negb].
+  change [a_nb a mod 256; a_nb a / 256 mod 256; a_nb a / 256 / 256 mod 256; a_nb a / 256 / 256 / 256 mod 256]
+    with (le_bytes 4 (a_nb a)).
+  change [a_sh a mod 256; a_sh a / 256 mod 256] with (le_bytes 2 (a_sh a)).
+  rewrite (le_val_le_bytes_small 4) by (change (256 ^ N.of_nat 4) with 4294967296; lia).
+  rewrite (le_val_le_bytes_small 2) by (change (256 ^ N.of_nat 2) with 65536; lia).
+  rewrite Hsh, N.eqb_refl. cbn [negb].
+  unfold entries_for_config_checked.
+  replace (a_nh a =? 0) with false by lia. replace (a_nb a <? 3) with false by lia.
+  replace (zN GenCountMin.MAX_TABLE_ENTRIES <=? a_nh a * a_nb a) with false
+    by (change (zN GenCountMin.MAX_TABLE_ENTRIES) with 1073741824; lia).
+  cbn [obind]. subst payload.
+  destruct (N.eqb_spec (a_total a) 0) as [Ht0|Ht0].
+  - rewrite land1_flag by (auto; lia). cbn [N.eqb negb]. change (1 =? 0) with false. cbn [negb].
+    unfold cm_make, state_of. rewrite Ht0, (Hempty Ht0), <- Hsh. reflexivity.
+  - rewrite land1_flag by (auto; lia). rewrite N.eqb_refl. cbn [negb].
+    match goal with |- context [N.of_nat ?l <? ?r] => replace (N.of_nat l <? r) with false end.
+    2:{ symmetry. apply N.ltb_ge. rewrite app_length, le_bytes_length, flat_map_le8_length, Hlen. lia. }
+    replace (S (N.to_nat (a_nh a * a_nb a))) with (length (a_total a :: a_cells a)) by (cbn [length]; lia).
+    change (le_bytes 8 (a_total a) ++ flat_map (le_bytes 8) (a_cells a))
+      with (flat_map (le_bytes 8) (a_total a :: a_cells a)).
+    rewrite <- (app_nil_r (flat_map _ _)).
+    rewrite read_cells_flat by (unfold M64; auto; constructor; auto).
+    cbn [obind]. unfold state_of. rewrite <- Hsh. reflexivity.
+Qed.
+
+(* the abstraction of the decoded sketch is the encoded state, and re-serializing it gives the
+   canonical image of that state (the unused fields zeroed) *)
+Lemma abs_state_of mx a : abs_of (state_of mx a) = a.
+Proof. destruct a; reflexivity. Qed.
+
+Lemma reserialize_canonical mx a : cm_serialize (state_of mx a) = spec_encode canonical_variant a.
+Proof.
+  unfold cm_serialize, spec_encode, cm_header, cm_is_empty, canonical_variant.
+  cbn [state_of cm_nh cm_nb cm_max cm_seed_hash cm_total cm_counts v_unused32 v_unused8 v_flag_hi].
+  destruct layout_constants as (Hp & Hv & Hf & Hfl & _). rewrite Hp, Hv, Hf, Hfl.
+  destruct (a_total a =? 0); rewrite ?N.add_0_r; repeat rewrite <- app_assoc; reflexivity.
+Qed.
+
+(* the layout specification is self-consistent: its decoder inverts its encoder on every variant *)
+Theorem spec_decode_encode mx sh v a :
+  variant_ok v -> abs_ok mx sh a -> spec_decode (spec_encode v a) = Some a.
+Proof.
+  intros (_ & _ & Hhi & Hev) (Hnh & Hnb & Hent & Hsh & Hshr & Hmx & Htot & Hcells & Hlen & Hempty).
+  unfold spec_encode.
+  set (payload := if a_total a =? 0 then [] else le_bytes 8 (a_total a) ++ flat_map (le_bytes 8) (a_cells a)).
+  repeat rewrite <- app_assoc. rewrite spec_header_explicit. unfold spec_decode.
+  cbn [app length nth firstn skipn Nat.ltb Nat.leb]. rewrite !N.eqb_refl. cbn [andb negb].
+  change [a_nb a mod 256; a_nb a / 256 mod 256; a_nb a / 256 / 256 mod 256; a_nb a / 256 / 256 / 256 mod 256]
+    with (le_bytes 4 (a_nb a)).
+  change [a_sh a mod 256; a_sh a / 256 mod 256] with (le_bytes 2 (a_sh a)).
+  rewrite (le_val_le_bytes_small 4) by (change (256 ^ N.of_nat 4) with 4294967296; lia).
+  rewrite (le_val_le_bytes_small 2) by (change (256 ^ N.of_nat 2) with 65536; lia).
+  subst payload.
+  destruct (N.eqb_spec (a_total a) 0) as [Ht0|Ht0].
+  - rewrite testbit0_flag by (auto; lia). cbn [N.eqb]. rewrite N.eqb_refl.
+    rewrite <- (Hempty Ht0), <- Ht0. destruct a; reflexivity.
+  - rewrite testbit0_flag by (auto; lia). change (0 =? 1) with false. cbn iota.
+    replace (S (N.to_nat (a_nh a * a_nb a))) with (length (a_total a :: a_cells a)) by (cbn [length]; lia).
+    change (le_bytes 8 (a_total a) ++ flat_map (le_bytes 8) (a_cells a))
+      with (flat_map (le_bytes 8) (a_total a :: a_cells a)).
+    rewrite <- (app_nil_r (flat_map _ _)).
+    rewrite spec_cells_flat; [destruct a; reflexivity|].
+    constructor; [unfold M64; lia|]. eapply Forall_impl; [|exact Hcells]. cbn. intros; unfold M64; lia.
+Qed.
+
+(* boolean admissibility used by the oracle implies the propositional one (given the type's range) *)
+Lemma abs_okb_ok mx sh a : sh < 65536 -> mx < 18446744073709551616 -> abs_okb mx sh a = true -> abs_ok mx sh a.
+Proof.
+  intros Hsh Hmx H. unfold abs_okb in H. repeat (apply andb_prop in H as [H ?]).
+  assert (Hall : Forall (fun c => c <= mx) (a_cells a)).
+  { apply Forall_forall. intros c Hc. rewrite forallb_forall in H2. specialize (H2 c Hc). lia. }
+  assert (Hlen : length (a_cells a) = N.to_nat (a_nh a * a_nb a)) by (apply Nat.eqb_eq; auto).
+  assert (Hemp : a_total a = 0 -> a_cells a = repeat 0 (N.to_nat (a_nh a * a_nb a))).
+  { intros Ht0. apply Bool.orb_prop in H0 as [H0|H0]; [lia|].
+    rewrite <- Hlen. clear -H0.
+    induction (a_cells a) as [|c l IH]; [reflexivity|]. cbn [forallb] in H0. apply andb_prop in H0 as [Hc Hl].
+    cbn [length repeat]. f_equal; [lia|auto]. }
+  unfold abs_ok. repeat split; auto; lia.
+Qed.
+
+Theorem foreign_read_full mx sh v a :
+  variant_ok v -> abs_ok mx sh a ->
+  exists s, cm_deserialize mx sh (spec_encode v a) = Ok s /\ abs_of s = a /\ wfc mx sh s /\
+            cm_serialize s = spec_encode canonical_variant a.
+Proof.
+  intros Hv Ha. exists (state_of mx a).
+  split; [exact (foreign_read mx sh v a Hv Ha)|]. split; [exact (abs_state_of mx a)|].
+  split; [exact (abs_ok_wfc mx sh a Ha)|exact (reserialize_canonical mx a)].
+Qed.
